@@ -342,7 +342,58 @@ TRUSTED += [RootParent(), AsDict()]
 
 
 # ---------------------------------------------------------------- replay on the real code (end to end)
+def _replay_proxy(unit_name, inp):
+    import numpy as np
+    from dclab.rtdc_dataset.feat_basin import BasinProxyFeature
+    rng = np.random.RandomState(int(inp.get("seed", 1)))
+    m = 9
+    scalar = "[scalar" in unit_name
+    origin = rng.uniform(0, 1, m) if scalar else rng.randint(0, 255, size=(m, 3, 4)).astype(np.uint8)
+    for bm in (np.array([5, 2, 2, 8, 0, 7, 1], dtype=np.uint64), np.arange(m, dtype=np.uint64)[::-1].copy()):
+        accesses = [("[3]", 3), ("[-1]", -1), ("[1:5]", slice(1, 5)), ("[:]", slice(None)),
+                    ("[[4,0,2]]", np.array([4, 0, 2])), ("[mask]", np.arange(len(bm)) % 2 == 0)]
+        for nm, key in accesses:
+            pf = BasinProxyFeature(feat_obj=origin, basinmap=bm)
+            got = np.asarray(pf[key])
+            want = origin[bm.astype(int)][key]
+            if got.shape != np.asarray(want).shape or not np.array_equal(got, want):
+                return {"failed": True, "detail": f"BasinProxyFeature{nm} with basinmap {bm.tolist()} is not "
+                                                  f"origin[basinmap]{nm} ({'scalar' if scalar else 'image-like'} feature)"}
+    return {"failed": False, "detail": "proxy access equals origin[basinmap[idx]]"}
+
+
+def _replay_store_basin(inp):
+    import pathlib, tempfile, warnings
+    import h5py, numpy as np
+    from dclab.rtdc_dataset.writer import RTDCWriter
+    with tempfile.TemporaryDirectory(prefix="c07_") as td, warnings.catch_warnings():
+        warnings.simplefilter("ignore")
+        p = pathlib.Path(td) / "f.rtdc"
+        base = int(inp.get("base", 200000))
+        m1 = np.arange(6, dtype=np.uint64) + base
+        m2 = m1 + 1
+        with RTDCWriter(p) as hw:
+            hw.store_feature("deform", np.linspace(0.01, 0.1, 6))
+            hw.store_basin(basin_name="a", basin_type="file", basin_format="hdf5", basin_locs=["/x/a.rtdc"],
+                           basin_map=m1, verify=False)
+            hw.store_basin(basin_name="b", basin_type="file", basin_format="hdf5", basin_locs=["/x/b.rtdc"],
+                           basin_map=m2, verify=False)
+        import json
+        with h5py.File(p) as h5:
+            defs = [json.loads("\n".join(x.decode() for x in h5["basins"][k][:])) for k in h5["basins"]]
+            for d in defs:
+                want = m1 if d["name"] == "a" else m2
+                if not np.array_equal(h5["events"][d["mapping"]][:], want):
+                    return {"failed": True, "detail": f"basin {d['name']} refers to {d['mapping']} whose content "
+                                                      f"{h5['events'][d['mapping']][:].tolist()} is not its map {want.tolist()}"}
+    return {"failed": False, "detail": "each basin definition names a mapping feature holding its map"}
+
+
 def replay(unit_name, inp, obligation=""):
+    if unit_name.startswith("BasinProxyFeature"):
+        return _replay_proxy(unit_name, inp)
+    if unit_name.startswith("RTDCWriter.store_basin"):
+        return _replay_store_basin(inp)
     import pathlib, shutil, tempfile, warnings
     import h5py, numpy as np
     import dclab
@@ -418,6 +469,10 @@ def replay(unit_name, inp, obligation=""):
 
 
 def bounded_inputs(unit_name, rng):
+    if unit_name.startswith(("BasinProxyFeature", "RTDCWriter.store_basin")):
+        yield {"seed": 1}
+        yield {"seed": 2, "base": 5000000}
+        return
     for depth in (1, 2, 3):
         for seed in (1, 2, 3):
             for hier in (False, True):
